@@ -6,7 +6,9 @@
    glob(pkgdir/"*.py") in its order, and for every module the classes that
    inspect.getmembers(module, inspect.isclass) yields, in its (name-sorted)
    order, with the values of getattr(cls,"MODE_NAME",None), bool(DISABLED),
-   bool(instance.DEFAULT) and whether calling the class raises.
+   bool(instance.DEFAULT) and whether calling the class raises -- by whatever
+   mechanism ([ctor_behaviour]).  For an implicit (namespace) package: the
+   entries of its __path__ -- repetitions included -- each with its own glob.
 
    Modelled assumptions (see harness/notes_c14.md): instance.MODE_NAME equals
    the class attribute; mode callbacks (on_enable/on_iteration/on_disable) do
@@ -25,8 +27,26 @@ Record cls := mkCls {
   mode_name   : option string;   (* getattr(obj, "MODE_NAME", None) *)
   disabled    : bool;            (* truth value of getattr(obj, "DISABLED", False) *)
   dflt        : bool;            (* truth value of getattr(instance, "DEFAULT", False) *)
-  ctor_raises : bool             (* obj(args..) raises *)
+  ctor_raises : bool             (* the call obj(args.., kwargs..) raises -- whatever raises it, see [fails] *)
 }.
+
+(* What the call obj(args.., kwargs..) of a class does.  The selector sees only
+   "an instance came back" or "an exception came out of the call"; where the
+   exception is raised does not matter to it: in the body of __init__, in
+   __new__, in the metaclass's __call__, by object.__new__ because the class is
+   abstract (abc: an abstract method is left unimplemented -> TypeError), or by
+   the interpreter because __init__ wants arguments the selector does not pass
+   (TypeError).  All of these are "failing constructors". *)
+Inductive ctor_behaviour :=
+| Constructs         (* an instance is returned *)
+| InitRaises         (* __init__ raises *)
+| NewRaises          (* __new__ raises *)
+| MetaCallRaises     (* type(obj).__call__ raises *)
+| AbstractClass      (* inspect.isabstract(obj): object.__new__ raises TypeError *)
+| NeedsArguments.    (* __init__(self, x) called without x: TypeError *)
+
+Definition fails (b : ctor_behaviour) : bool :=
+  match b with Constructs => false | _ => true end.
 
 Record module := mkMod {
   mname        : string;         (* os.path.basename(module_filename[:-3]) *)
@@ -216,12 +236,40 @@ Definition discover (fms : bool) (p : package) : outcome :=
 (* ------------------------------------------------------------------ *)
 (* The import of the package itself (selector.py:91-112)               *)
 
+(* One entry of the __path__ of an implicit (namespace) package. *)
+Record portion := mkPortion {
+  pdir   : string;         (* the directory, as it stands in __path__ *)
+  pfiles : list module     (* glob(os.path.join(pdir, "*.py")), in its order *)
+}.
+
+(* pkgdirs = list(set(pkgpath)): every directory once, however often __path__
+   lists it (a directory that is on sys.path twice is in __path__ twice).  The
+   iteration order of a set is not specified: the model keeps the FIRST
+   occurrences in the order of the list it is given, and the correspondence
+   accepts what the model gives for ANY order of the distinct directories
+   (Corr.check_case_any). *)
+Fixpoint dedup_dirs (seen : list string) (path : list portion) : list portion :=
+  match path with
+  | [] => []
+  | po :: rest =>
+    if existsb (String.eqb (pdir po)) seen then dedup_dirs seen rest
+    else po :: dedup_dirs (pdir po :: seen) rest
+  end.
+
+Definition path_dirs (path : list portion) : list portion := dedup_dirs [] path.
+
+(* for pkgdir in pkgdirs: modules.extend(glob(os.path.join(pkgdir, "*.py"))) *)
+Definition path_modules (path : list portion) : list module := flat_map pfiles (path_dirs path).
+
 (* what importlib.import_module(autonomous_pkgname) does -- as observed *)
 Inductive pkg_import :=
 | ImportRaisesImportError (mnf : bool) (ename : option string)
                                    (* an ImportError e; mnf = isinstance(e, ModuleNotFoundError); e.name *)
 | ImportRaisesOther                (* any other Exception out of the package's code *)
-| Imported (mods : list module).   (* the package object; glob order of its *.py *)
+| Imported (mods : list module)    (* a package object with __file__; glob order of the *.py beside it *)
+| ImportedNamespace (path : list portion).
+                                   (* a package object without __file__ (implicit package): its __path__,
+                                      entry by entry, repetitions included *)
 
 (* isinstance(e, ModuleNotFoundError) and e.name is not None
    and (autonomous_pkgname + ".").startswith(e.name + ".") *)
@@ -242,6 +290,7 @@ Definition import_outcome (pkgname : string) (i : pkg_import) : package :=
     if names_the_package pkgname mnf ename then PkgMissing else PkgInitFails
   | ImportRaisesOther => PkgInitFails
   | Imported ms => PkgPresent ms
+  | ImportedNamespace path => PkgPresent (path_modules path)
   end.
 
 (* AutonomousModeSelector(autonomous_pkgname) *)
